@@ -163,8 +163,15 @@ func (f *fnSpec) runInner(got []reflect.Value) (outs []reflect.Value, nilPtr boo
 	nth := f.execs
 	f.execs++
 	var as []string
+	tag := -1
 	for _, v := range got {
 		as = append(as, fmt.Sprintf("%d:%d", vidOf(v), tyID(v.Type())))
+		if id := vidOf(v); raceMode && id >= 8000 && id < 10000 {
+			if tag >= 0 && tag != id/100 {
+				raceMixed++ // one execution received values that two different goroutines supplied
+			}
+			tag = id / 100
+		}
 	}
 	ev := fmt.Sprintf("ev exec %d %d args=%s", f.ID, nth, strings.Join(as, ","))
 	if strings.HasPrefix(f.Script, "fail@") {
